@@ -120,7 +120,7 @@ func init() {
 // generators
 
 var c20Scenarios = []string{
-	"prep-first", "prep-first-prove", "prep-repeat-prove", "prep-refresh-prove", "prove-shared", "prove-range", "verify-shared", "cprng", "keygen", "keyproof",
+	"prep-first", "prep-first-prove", "prep-repeat-prove", "prep-refresh-prove", "consume-burst", "prove-shared", "prove-range", "verify-shared", "cprng", "keygen", "keyproof",
 }
 
 // inflightRefreshOp: a session that spans a cache refresh (committed before, answered after the
@@ -892,6 +892,54 @@ func execC20Child(o Op) string {
 			for _, c := range seen {
 				if c > 1 {
 					errs.add("a-prepared-nonrevocation-commitment-served-two-proofs")
+				}
+			}
+		}
+
+	case "consume-burst":
+		// one prepared commitment, several provers reaching for it at the very same moment (they
+		// leave a spinning barrier together): one gets it, the others build their own - nobody waits
+		env := c20NewEnv()
+		cred := c20Credential(env)
+		rounds := 150 * iters
+	burst:
+		for r := 0; r < rounds; r++ {
+			if err := cred.NonrevPrepareCache(); err != nil {
+				errs.add("prepare:" + err.Error())
+				break
+			}
+			k := n
+			if k > 8 {
+				k = 8
+			}
+			var ready int32
+			done := make(chan string, k)
+			for i := 0; i < k; i++ {
+				go func() {
+					defer func() {
+						if e := recover(); e != nil {
+							done <- fmt.Sprintf("panic:%v", e)
+						}
+					}()
+					atomic.AddInt32(&ready, 1)
+					for atomic.LoadInt32(&ready) < int32(k) {
+						runtime.Gosched()
+					}
+					b, err := cred.VerifNonrevConsumeBuilder()
+					if err != nil || b == nil {
+						done <- fmt.Sprintf("consume:%v", err)
+						return
+					}
+					done <- ""
+				}()
+			}
+			for i := 0; i < k; i++ {
+				select {
+				case msg := <-done:
+					errs.add(msg)
+				case <-time.After(8 * time.Second):
+					errs.add("a-prover-never-got-a-commitment-(blocked-on-the-cache)")
+					break burst
 				}
 			}
 		}
